@@ -63,6 +63,16 @@ func (m *Machine) packageScan() *FuncReport {
 		fns = append(fns, fn)
 	}
 	sort.Slice(fns, func(i, j int) bool { return funcKey(fns[i]) < funcKey(fns[j]) })
+	// C14: the documented decode entry points turn panics of the reflective assembly into errors
+	for _, key := range pc.RecoverPoints {
+		fn := m.findFunc(key)
+		ok := false
+		why := "no such function"
+		if fn != nil {
+			ok, why = recoversPanics(fn)
+		}
+		rep.Obligs = append(rep.Obligs, m.pkgObl("recovers", key, []string{"C14"}, ok, why, "a deferred closure calls recover() and assigns the error result"))
+	}
 	props := []string{"C12"}
 	isRef := func(t types.Type) bool {
 		switch t.Underlying().(type) {
@@ -163,4 +173,46 @@ func (m *Machine) packageScan() *FuncReport {
 			m.pkgObl("global-readonly-use", key, props, len(badUse) == 0, strings.Join(badUse, " "), "references loaded from read-only globals are passed only to declared read-only uses"))
 	}
 	return rep
+}
+
+// recoversPanics: fn defers (in its entry block, before any other call) a closure that calls
+// recover() and stores to a captured *error.
+func recoversPanics(fn *ssa.Function) (bool, string) {
+	if len(fn.Blocks) == 0 {
+		return false, "no body"
+	}
+	for _, ins := range fn.Blocks[0].Instrs {
+		switch x := ins.(type) {
+		case *ssa.Defer:
+			mc, ok := x.Call.Value.(*ssa.MakeClosure)
+			if !ok {
+				return false, "deferred call is not a closure"
+			}
+			cl := mc.Fn.(*ssa.Function)
+			callsRecover, storesErr := false, false
+			for _, b := range cl.Blocks {
+				for _, ci := range b.Instrs {
+					if call, ok := ci.(*ssa.Call); ok {
+						if bi, ok := call.Call.Value.(*ssa.Builtin); ok && bi.Name() == "recover" {
+							callsRecover = true
+						}
+					}
+					if st, ok := ci.(*ssa.Store); ok {
+						if fv, ok := st.Addr.(*ssa.FreeVar); ok {
+							if pt, ok := fv.Type().(*types.Pointer); ok && isErrorType(pt.Elem()) {
+								storesErr = true
+							}
+						}
+					}
+				}
+			}
+			if callsRecover && storesErr {
+				return true, ""
+			}
+			return false, "the deferred closure does not recover into the error result"
+		case *ssa.Call:
+			return false, "a call precedes the deferred recover"
+		}
+	}
+	return false, "no deferred recover in the entry block"
 }
